@@ -35,6 +35,11 @@ def handle (toks : List String) : Option String :=
   | ["lowertab"] =>
     -- the whole table of characters changed by `char::to_lowercase` (compared with the toolchain)
     some (",".intercalate (notLowerRanges.map fun r => toString r.1 ++ "-" ++ toString r.2))
+  | ["lintinc", _, _] =>
+    -- lint of a file that INCLUDES another one (the model's linter has no file system): the
+    -- harness evaluates the property's relation on the real run (verdict and the reported
+    -- source / line come from the library's parse_file)
+    some "lintinc"
   | ["repl", _] =>
     -- no arguments = the interactive loop (`C20_dispatch`); what the loop prints is compared by
     -- the harness with the library run of the same lines (the model does not run SDK commands)
